@@ -506,7 +506,7 @@ pub fn c02_blanket_array_n4() {
     blanket_array::<4>();
 }
 
-// @verif prop=C02 tier=thorough fl=f0 role=blanket/array t=3600 mem=24
+// @verif prop=C02 tier=thorough fl=f0 role=blanket/array t=3600 mem=16
 #[cfg_attr(kani, kani::proof)]
 #[cfg_attr(kani, kani::unwind(8))]
 pub fn c02_blanket_array_n5() {
@@ -536,7 +536,7 @@ pub fn c02_inherent_adjacency_list_n3_t2() {
 }
 
 // ... with the thread count symbolic in 1..=4.
-// @verif prop=C02 tier=thorough fl=f2 role=inherent/adjacency-list t=3600 mem=30
+// @verif prop=C02 tier=exp fl=f2 role=inherent/adjacency-list t=3600 mem=30
 #[cfg_attr(kani, kani::proof)]
 #[cfg_attr(kani, kani::unwind(8))]
 pub fn c02_inherent_adjacency_list_n3_p4() {
@@ -550,7 +550,7 @@ pub fn c02_inherent_adjacency_map_n3() {
     inherent::<AdjacencyMap, 3>(1);
 }
 
-// @verif prop=C02 tier=thorough fl=f1 feat=map4 role=noncontiguous/adjacency-map t=3600 mem=30
+// @verif prop=C02 tier=exp fl=f1 feat=map4 role=noncontiguous/adjacency-map t=3600 mem=30
 #[cfg_attr(kani, kani::proof)]
 #[cfg_attr(kani, kani::unwind(10))]
 pub fn c02_map_noncontiguous() {
@@ -558,7 +558,7 @@ pub fn c02_map_noncontiguous() {
 }
 
 // Sequences of an AdjacencyMap on a vertex set within {0, 2, 3}.
-// @verif prop=C02 tier=quick fl=f1 feat=map4 role=noncontiguous-sequences/adjacency-map t=1500 mem=16
+// @verif prop=C02 tier=quick fl=f1 feat=map4 role=noncontiguous-sequences/adjacency-map t=1500 mem=30
 #[cfg_attr(kani, kani::proof)]
 #[cfg_attr(kani, kani::unwind(8))]
 pub fn c02_map_noncontiguous_sequences() {
@@ -600,14 +600,14 @@ pub fn c02_derived_adjacency_map_n3() {
     derived_rep::<AdjacencyMap, 3>();
 }
 
-// @verif prop=C02 tier=thorough fl=f0 role=inherent/matrix t=3600 mem=24
+// @verif prop=C02 tier=exp fl=f0 role=inherent/matrix t=3600 mem=24
 #[cfg_attr(kani, kani::proof)]
 #[cfg_attr(kani, kani::unwind(16))]
 pub fn c02_inherent_matrix_n4() {
     inherent::<AdjacencyMatrix, 4>(1);
 }
 
-// @verif prop=C02 tier=thorough fl=f1 role=inherent/edge-list t=3600 mem=24
+// @verif prop=C02 tier=thorough fl=f1 role=inherent/edge-list t=3600 mem=16
 #[cfg_attr(kani, kani::proof)]
 #[cfg_attr(kani, kani::unwind(15))]
 pub fn c02_inherent_edge_list_n4() {
